@@ -50,6 +50,29 @@ def check(ctx):
         run.add('C10.cover', MOD, 'create_final_construct_fn', f'check loop {src.var!r} in {src.base!r} filtered by {cnd!r}'[:220], False,
                 f'the binding check is emitted only for ports satisfying `{cnd!r}`: an exposed port for which this is false is '
                 f'never checked, an unbound event of it goes unnoticed')
+    # a condition around a check loop that no port kind decides and that is not the emptiness of that very loop: the checks
+    # of these ports depend on something else in the model (e.g. on whether there are ports of the OTHER direction too)
+    from ..links import collect_loops, is_port_src
+    seen_c = set()
+    for lp in collect_loops(w.ev, contents, is_port_src):
+        for fr in lp.frames:
+            if fr.kind != 'cond' or fr.cond is None or repr(fr.cond) in seen_c:
+                continue
+            if any(w.scenario('create_final_construct_fn', kind=k, has_multiclient=(k == 'P-MTS-multiclient')).decide(fr.cond) is not None
+                   for k in PORT_KINDS):
+                continue
+
+            def atoms(c):
+                return [a for x in c.args for a in atoms(x)] if c.op in ('and', 'or', 'not') else [c]
+            foreign = [a for a in atoms(fr.cond) if not (a.op == 'nonempty' and a.args and getattr(a.args[0], 'base', None) is not None
+                                                         and repr(a.args[0].base) == repr(lp.src.base)
+                                                         and repr(a.args[0].filters) == repr(lp.src.filters))]
+            if foreign and fr.cond.op in ('and',) or (foreign and len(atoms(fr.cond)) == 1 and foreign[0].op == 'nonempty'):
+                seen_c.add(repr(fr.cond))
+                run.add('C10.cover', MOD, 'create_final_construct_fn', f'check loop over {lp.src.base!r} under {fr.cond!r}'[:200], False,
+                        f'the binding checks of the ports in `{lp.src.base!r}` are only emitted when `{fr.cond!r}` holds - a condition on '
+                        f'other parts of the model ({", ".join(repr(a)[:60] for a in foreign[:2])}): when it is false none of these ports is '
+                        f'checked and an unbound event goes unnoticed')
     for kind in PORT_KINDS:
         stmts, problems = w.port_statements('create_final_construct_fn', kind, val=contents)
         for p in problems:
